@@ -69,6 +69,7 @@ type FuncContract struct {
 	Bounded   string // non-empty: this unit is a bounded check with the stated bound
 	Establishes []string
 	ThoroughOnly bool
+	PrefixOnly   bool // obligations are collected until the translation leaves the subset; the rest is reported as not verified
 	View         string
 	Views        []string          // alternative (abstract) contracts of callees this unit is verified against
 	AtCall       map[string][]Clause // callee name -> conditions that must hold in the caller right before each call
@@ -153,7 +154,7 @@ func newContracts() *Contracts {
 		Ghosts: map[string]*GhostVar{}, Externs: map[string]*FuncContract{}, Writers: map[string][]string{}, Scenarios: map[string]*Scenario{}, ImportsByPkg: map[string][]string{}}
 }
 
-var kwRe = regexp.MustCompile(`^(import|define|ghost|func|extern|lemma|axiom|fact|scenario|do|establishes|writers|callers-inline|thorough-only|views|at-call|allow-extern|props|requires|ensures|modifies|nopanic|exact-conversions|trusted|inline|split|loop|assert|use|hyp|concl|timeout|bounded|opaque)\b`)
+var kwRe = regexp.MustCompile(`^(import|define|ghost|func|extern|lemma|axiom|fact|scenario|do|establishes|writers|callers-inline|thorough-only|prefix-only|views|at-call|allow-extern|props|requires|ensures|modifies|nopanic|exact-conversions|trusted|inline|split|loop|assert|use|hyp|concl|timeout|bounded|opaque)\b`)
 
 func parseExprSrc(src string) (ast.Expr, error) {
 	// ==> is written as implies(); allow `a ==> b` at top level as sugar, right-assoc
@@ -385,6 +386,8 @@ func (cs *Contracts) LoadContractFile(path string, pkgShort string) error {
 				cur.AtCall = map[string][]Clause{}
 			}
 			cur.AtCall[strings.TrimSpace(f[0])] = append(cur.AtCall[strings.TrimSpace(f[0])], c)
+		case "prefix-only":
+			cur.PrefixOnly = true
 		case "thorough-only":
 			if cur != nil {
 				cur.ThoroughOnly = true
